@@ -36,7 +36,7 @@ class C03(Check):
                         "committed sequence; stop at first incomplete transaction)"]
 
     def budget(self, tier):
-        return {"runs": 500, "wall_s": 85} if tier == "quick" else {"runs": 30000, "wall_s": 1500}
+        return {"runs": 500, "wall_s": 85} if tier == "quick" else {"runs": 6000, "wall_s": 1500}
 
     def generate(self, rng, tier):
         return {"world_seed": rng.u64(), "crash_seed": rng.u64(), "rot": rng.chance(0.15), "crash_mode": None,
@@ -135,7 +135,8 @@ class C03(Check):
                         break     # a journal without checksums cannot notice a flipped bit: nothing is claimed
                     got = post[b * bs:(b + 1) * bs]
                     if got != pre[b * bs:(b + 1) * bs] and got not in imgs:
-                        o.violate("%s|%s|rot.garbage" % (fe, fmtname),
+                        tid = (jw["seq0"] + rot["txn"]) & 0xFFFFFFFF
+                        o.violate("%s|%s|rot.garbage%s" % (fe, fmtname, "|tid0" if tid == 0 else ""),
                                   "%s, one bit flipped in the %s block of txn %d: fs block %d holds bytes that were never logged for it" %
                                   (where, rot["role"], rot["txn"], b))
                         break
